@@ -53,6 +53,9 @@ def _variants(case):
     recs, d = spec["records"], spec["delimiter"]
     out = {"given": Converter(mk_records(recs), delimiter=d)}
     out["permuted"] = Converter(mk_records([recs[i] for i in case["perm1"]]), delimiter=d)
+    # `records` is typed Iterable[Record]: a one-shot generator / a tuple must denote the same converter as a list
+    out["permuted-as-generator"] = Converter((x for x in mk_records([recs[i] for i in case["perm2"]])), delimiter=d)
+    out["given-as-tuple"] = Converter(tuple(mk_records(recs)), delimiter=d)
     inc = Converter([], delimiter=d)
     for i in case["perm2"]:
         inc.add_record(mk_record(recs[i]))
@@ -73,6 +76,7 @@ def _variants(case):
 
     out["incremental-with-interleaved-queries"] = mk_incremental_queried(spec, case["perm1"], queries)
     out["split-and-merged"] = mk_split_merge(spec)
+    out["incremental-every-synonym-merged-twice"] = mk_incremental_queried(spec, case["perm1"], lambda c: None, repeat=2)
     if case_insensitive_build_is_equivalent(spec):
         out["re-merged-into-itself-case-insensitively"] = mk_remerged(spec)
     out["after-calls-that-must-be-rejected"] = mk_after_rejected_calls(spec)
